@@ -147,6 +147,7 @@ const POS_PROGRAM: &[(&str, &str, &str, &str)] = &[
     ("op0", "M::I::op0", "    ", "op0(p: int32, q: string)"),
     ("op1", "M::I::op1", "    ", "op1(p: int32) -> bool"),
     ("op2", "M::I::op2", "    ", "op2(p: int32) -> (r: bool, s: int32)"),
+    ("op3", "M::I::op3", "    ", "op3(p: int32) -> (p: bool, s: int32)"),
     ("", "", "", "}"),
     ("enum", "M::E", "", "enum E {"),
     ("enumerator", "M::E::A", "\t", "A(f: int32)"),
